@@ -15,7 +15,7 @@ func init() {
 		Witness{Rule: "C12.objapi", Name: "next-element-does-not-move-on", File: f, After: "func (o *Object) NextElementBytes(", Old: "\to.off += elemSize\n", New: "", Breaks: "after a member the object cursor points into its value"},
 		Witness{Rule: "C12.objapi", Name: "map-error-dropped", File: f, After: "func (o *Object) Map(", Old: "\t\tif err != nil {\n\t\t\treturn nil, fmt.Errorf(\"parsing element %q: %w\", name, err)\n\t\t}\n", New: "", Breaks: "Map silently drops members whose value cannot be converted"},
 		Witness{Rule: "C12.objapi", Name: "elements-comma-after-last", File: f, After: "func (e Elements) MarshalJSONBuffer(", Old: "if i < len(e.Elements)-1 {", New: "if i < len(e.Elements) {", Breaks: "Elements.MarshalJSON writes `{\"a\":1,}`"},
-		Witness{Rule: "C12.objapi", Name: "lookup-missing-key", File: f, After: "func (e Elements) Lookup(", Old: "\tif !ok {\n\t\treturn nil\n\t}\n", New: "", Breaks: "Lookup of an absent key returns the first element"},
+		Witness{Rule: "C12.objapi", Name: "lookup-missing-key", File: f, After: "func (e Elements) Lookup(", Old: "\tif !ok {\n\t\treturn nil\n\t}\n", New: "\t_ = ok\n", Breaks: "Lookup of an absent key returns the first element"},
 	)
 }
 
